@@ -383,6 +383,8 @@ def r3_validator_consumers(ctx):
     cls = repo_cls(corpus)
     vi = corpus.method(cls, '_validate_init_settings')
     va = corpus.method(cls, '_validate_add_key_settings')
+    if vi is None or va is None:
+        raise AnalysisError('C17.R3: anchor function missing: Repository._validate_init_settings / _validate_add_key_settings')
     ctx.analysed(vi, va)
     allowed = []
     for f in (vi, va):
